@@ -54,6 +54,30 @@ def affine_model(rng, delta):
     return text
 
 
+def float_power_singular(ode, s, pt, lay, gi, g):
+    """the open finding, by cause: sympy differentiates u**2.0 (floating-point exponent) as 2.0*u**2.0*u'/u, which
+    is 0/0 where u vanishes; with the exponents written as exact numbers the same derivative is finite and right"""
+    if math.isfinite(gi) or not math.isfinite(g):
+        return False
+    import sympy
+    try:
+        e = ode[f"d{s}_dt"].expr
+        if not any(p.exp.is_Float for p in e.atoms(sympy.Pow)):
+            return False
+        e2 = e.replace(lambda a: isinstance(a, sympy.Pow) and a.exp.is_Float,
+                       lambda a: sympy.Pow(a.base, sympy.nsimplify(a.exp, rational=True)))
+        d = sympy.diff(e2.doit(), ode[s].symbol)
+        inter = {x.symbol: x.expr for x in ode.intermediates}
+        for _ in range(len(inter) + 1):
+            d = d.xreplace(inter)
+        vals = {ode[k].symbol: v for k, v in list(pt["states"].items()) + list(pt["params"].items())}
+        vals[ode.t] = pt["t"]
+        v = float(d.subs(vals).evalf())
+        return math.isfinite(v) and close(v, g, 1.0 + abs(g), 1e-8)
+    except Exception:  # noqa: BLE001
+        return False
+
+
 def check_text(rep, drv, rng, text, delta, fname, points, model=None, extra=None):
     """shared by random and directed cases; points: list of dicts (t, dt, states, params)"""
     c = pipeline.Case(drv, text, model)
@@ -145,8 +169,9 @@ def check_text(rep, drv, rng, text, delta, fname, points, model=None, extra=None
             if gname in loc:
                 gi = float(loc[gname])
                 if not close(gi, g, S + abs(g), 1e-8):
+                    key = "C06-derivative-of-float-power-singular-at-zero" if float_power_singular(c.ode, s, pt, lay, gi, g) else None
                     failing = (f"{gname} = {gi!r} but the derivative of d{s}_dt with respect to {s} is {g!r}",
-                               {"kind": "direct", "text": text, "inputs": pt, "delta": delta, "state": s})
+                               {"kind": "direct", "text": text, "inputs": pt, "delta": delta, "state": s}, key)
                     break
                 if mode == "plain" and gi == 0.0:
                     key = "C06-guard-dropped-underflow" if abs(x) > 1e100 else None
@@ -231,6 +256,12 @@ def main(argv=None):
     text = "states(x=1)\ndx_dt = atan(x)\n"
     core.guarded(rep, text, check_text, rep, drv, rng, text, 1e-8, "generalized_rush_larsen",
                  [{"t": 0.0, "dt": 0.1, "states": {"x": 1e160}, "params": {}}, {"t": 0.0, "dt": 0.1, "states": {"x": 2.0}, "params": {}}])
+    rep.case(key=text, nontrivial=True)
+    # ---- the witness of the float-power finding (derivative printed as 0/0 at a zero of the base)
+    text = "states(b2=-0.3, V=0.5)\ndb2_dt = (b2* b2)**2.0\ndV_dt = 0.5 - V\n"
+    core.guarded(rep, text, check_text, rep, drv, rng, text, 0.5, "generalized_rush_larsen",
+                 [{"t": 1.0, "dt": 0.0625, "states": {"b2": 0.0, "V": 0.125}, "params": {}},
+                  {"t": 1.0, "dt": 0.0625, "states": {"b2": 0.75, "V": 0.125}, "params": {}}])
     rep.case(key=text, nontrivial=True)
     # ---- random models
     for i in range(n):
